@@ -121,10 +121,12 @@ class C06(Prop):
             "set of written parts, real dumps() outcome (ok / exception class) vs the model walk; oracle: corrupted => TypeError/ValueError, valid => text")
     assumptions = ["the object skeleton is well typed (string keys, parent pointers mirror containment, path tables/platform sets/payload of the types the API produces); "
                    "only catalogue fields are corrupted",
-                   "model covers dump() up to the end of serialize(); text rendering is C01-C04's"]
-    partial = {"C06_errclass_composeinfo_partial": "the full statement (error class is TypeError or ValueError) is false of the code: a hand-bound validator body can raise another class (F19: composeinfo Variant uid not a str, no parent, no children -> AttributeError); proved with that exception stated",
-               "C06_errclass_images_partial": "same shape; for images no hand-bound body raises outside TypeError/ValueError on the generated domain",
-               "C06_errclass_treeinfo_partial": "same; treeinfo Images with a non-string path / non-dict platform table -> AttributeError (F19); IndexError for a tree without variants (F12). The treeinfo converse is not proved (only composeinfo, images, simple formats, discinfo)"}
+                   "model covers dump() up to the end of serialize(); text rendering is C01-C04's",
+                   "C06_errclass_composeinfo/_treeinfo carry the decidable hypothesis StepsInDomain: no variant's parent uid is a list/dict/foreign object "
+                   "(the model cannot compute '%s' of it), no parent arch container is a foreign object, treeinfo checksum/platform tables are dicts "
+                   "(wrong-shape skeletons raise AttributeError in the real code; container shape is not a catalogue rule); F12 IndexError for a tree "
+                   "with no variants is a disjunct of C06_errclass_treeinfo"]
+    partial = {}
 
     def __init__(self):
         self._cache = {}
@@ -140,7 +142,7 @@ class C06(Prop):
         T = self.T()
         n = 0
         i = 0
-        quota = {"nl": 20, "f19": 12}
+        quota = {"nl": 20, "f19": 10 ** 9}
         # targeted stream: rules of the catalogue that the regenerated validator inventory no longer contains verbatim
         try:
             gen = json.load(open(checklib.os.path.join(checklib.LEAN, "generated.json")))
@@ -351,6 +353,6 @@ PROP = C06()
 
 MANIFEST = dict(
     technique="Lean 4 proof over a walk model of dump(): rule catalogue (hand-written spec) included in the validator inventory regenerated from the source (decide), validate() placement read from the regenerated call structure (decide), structural lemmas over forest/cells; differential correspondence of every part's validate() and of the whole dumps() outcome; oracle on the real library with one-field corruptions",
-    text="C06_catalogue_enforced / C06_catalogue_complete: every documented rule is among the rules validate() runs for its class, and nothing else is (decide on Generated/Validators.lean). C06_flags: every nested writer calls self.validate() where the model assumes (decide on Generated/Structure.lean). C06_enforced_<format>: if any written part (any variant of the forest, any image of any cell, any section) breaks a catalogue rule, dumps fails; C06_errclass_*: with TypeError/ValueError unless a hand-bound validator body raises another class (F19); C06_converse_<format>: all rules hold and the listed non-validator failure sources are absent => dumps succeeds.",
-    note="Model = outcome of dump() up to the end of serialize() (not the text). Skeleton assumed well typed. Known findings: F15 (`$` accepts a trailing line feed), F19 (AttributeError instead of TypeError/ValueError for a non-string top-level composeinfo variant uid and a non-string treeinfo image path).",
+    text="C06_catalogue_enforced / C06_catalogue_complete: every documented rule is among the rules validate() runs for its class, and nothing else is (decide on Generated/Validators.lean). C06_flags: every nested writer calls self.validate() where the model assumes (decide on Generated/Structure.lean). C06_enforced_<format>: if any written part (any variant of the forest, any image of any cell, any section) breaks a catalogue rule, dumps fails; C06_errclass_<format>: ANY failure of the walk is TypeError or ValueError (images/rpms/modules/extra_files/discinfo: no hypothesis; composeinfo/treeinfo: for parts in the model domain StepsInDomain, treeinfo additionally IndexError when there is no variant, F12); C06_converse_<format> (all seven): all rules hold and the listed non-validator failure sources are absent => dumps succeeds.",
+    note="Model = outcome of dump() up to the end of serialize() (not the text). Skeleton assumed well typed. Known finding: F15 (`$` accepts a trailing line feed). F23 (AttributeError for a non-string uid / image path) is repaired in /repo: the oracle accepts no class other than TypeError/ValueError.",
     ref="7/C06")
